@@ -43,6 +43,7 @@ pub open spec fn line_run(h: LineHdr, r: LineRegs, ops: Seq<LineOp>) -> LineRun
 }
 
 /// every instruction satisfies what the reader's decoder establishes (special opcodes in opcode_base..=255, operands in range)
+#[verifier::opaque]
 pub open spec fn line_ops_wf(h: LineHdr, ops: Seq<LineOp>) -> bool {
     forall|i: int| 0 <= i < ops.len() ==> line_op_wf(h, #[trigger] ops[i])
 }
@@ -131,6 +132,12 @@ pub open spec fn wl_initial(h: LineHdr) -> WRow {
     }
 }
 
+/// the address offset is a multiple of minimum_instruction_length (only such addresses are reachable by operation advances)
+#[verifier::opaque]
+pub open spec fn wl_aligned(h: LineHdr, address_offset: int) -> bool {
+    address_offset % h.min_inst_len == 0
+}
+
 /// all fields are 64-bit unsigned, op_index < maximum_operations_per_instruction (6.2.2), and the address offset is a
 /// multiple of minimum_instruction_length (only such addresses are reachable by operation advances)
 pub open spec fn wl_row_wf(h: LineHdr, w: WRow) -> bool {
@@ -141,7 +148,7 @@ pub open spec fn wl_row_wf(h: LineHdr, w: WRow) -> bool {
     &&& 0 <= w.column <= 0xffff_ffff_ffff_ffff
     &&& 0 <= w.isa <= 0xffff_ffff_ffff_ffff
     &&& 0 <= w.discriminator <= 0xffff_ffff_ffff_ffff
-    &&& w.address_offset % h.min_inst_len == 0
+    &&& wl_aligned(h, w.address_offset)
 }
 
 /// the row the writer remembers as "previous": a row after the per-row reset
@@ -162,6 +169,7 @@ pub open spec fn wl_ordered(prev: WRow, row: WRow) -> bool {
 
 /// THE operation advance that takes the machine from `prev` to `row` (inverse of 6.2.5.1:
 /// address += min_inst_len * ((op_index + adv) / max_ops), op_index = (op_index + adv) % max_ops)
+#[verifier::opaque]
 pub open spec fn wl_op_advance(h: LineHdr, prev: WRow, row: WRow) -> int {
     ((row.address_offset - prev.address_offset) / h.min_inst_len) * h.max_ops + row.op_index - prev.op_index
 }
@@ -272,6 +280,7 @@ pub proof fn lemma_ops_wf_push(h: LineHdr, ops: Seq<LineOp>, op: LineOp)
     requires line_ops_wf(h, ops), line_op_wf(h, op)
     ensures line_ops_wf(h, ops.push(op))
 {
+    reveal(line_ops_wf);
 }
 
 // ---------------------------------------------------------------------------------------------------------------
@@ -322,6 +331,8 @@ pub proof fn lemma_wl_advance_lands(h: LineHdr, base: int, prev: WRow, row: WRow
         line_advance(h, r, wl_op_advance(h, prev, row)).err == (base + row.address_offset > addr_max(h)),
         wl_op_advance(h, prev, row) == 0 <==> (prev.address_offset == row.address_offset && prev.op_index == row.op_index),
 {
+    reveal(wl_op_advance);
+    reveal(wl_aligned);
     reveal(line_advance);
     let d = h.min_inst_len;
     let m = h.max_ops;
@@ -435,6 +446,7 @@ pub open spec fn wl_rest_done(w: WRow, row: WRow) -> bool {
 }
 
 /// where DW_LNS_const_add_pc takes the (relative) row `w`
+#[verifier::opaque]
 pub open spec fn wl_mid(h: LineHdr, w: WRow) -> WRow {
     let t = w.op_index + wl_const_add_pc_advance(h);
     WRow { address_offset: w.address_offset + h.min_inst_len * (t / h.max_ops), op_index: t % h.max_ops, ..w }
@@ -459,7 +471,11 @@ pub proof fn lemma_wl_mid(h: LineHdr, w: WRow, row: WRow)
         wl_row_wf(h, wl_mid(h, w)), wl_ordered(wl_mid(h, w), row),
         wl_op_advance(h, wl_mid(h, w), row) == wl_op_advance(h, w, row) - wl_const_add_pc_advance(h),
         w.address_offset <= wl_mid(h, w).address_offset <= row.address_offset,
+        wl_mid(h, w) == (WRow { address_offset: wl_mid(h, w).address_offset, op_index: wl_mid(h, w).op_index, ..w }),
 {
+    reveal(wl_op_advance);
+    reveal(wl_aligned);
+    reveal(wl_mid);
     let d = h.min_inst_len;
     let m = h.max_ops;
     let rr = wl_const_add_pc_advance(h);
@@ -505,6 +521,7 @@ pub proof fn lemma_wl_step_const_add_pc(h: LineHdr, base: int, w: WRow, row: WRo
     ensures
         line_step(h, wl_regs(base, w), LineOp::ConstAddPc) == (LineStep { err: false, row: None, next: wl_regs(base, wl_mid(h, w)) }),
 {
+    reveal(wl_mid);
     lemma_wl_mid(h, w, row);
     reveal(line_advance);
 }
@@ -569,4 +586,26 @@ pub proof fn lemma_wl_sets_step(h: LineHdr, base: int, op: LineOp, w: WRow, w2: 
     requires wl_sets(op, w, w2)
     ensures line_step(h, wl_regs(base, w), op) == (LineStep { err: false, row: None, next: wl_regs(base, w2) })
 {
+}
+
+/// the operation advance depends on the two positions only
+pub proof fn lemma_wl_op_advance_cong(h: LineHdr, a: WRow, b: WRow, a2: WRow, b2: WRow)
+    requires a.address_offset == a2.address_offset, a.op_index == a2.op_index, b.address_offset == b2.address_offset, b.op_index == b2.op_index
+    ensures wl_op_advance(h, a, b) == wl_op_advance(h, a2, b2)
+{
+    reveal(wl_op_advance);
+}
+
+pub proof fn lemma_ops_wf_empty(h: LineHdr)
+    ensures line_ops_wf(h, Seq::<LineOp>::empty())
+{
+    reveal(line_ops_wf);
+}
+
+/// offset 0 is on an instruction boundary
+pub proof fn lemma_wl_aligned_zero(h: LineHdr)
+    requires h.min_inst_len >= 1
+    ensures wl_aligned(h, 0)
+{
+    reveal(wl_aligned);
 }
